@@ -438,3 +438,141 @@ def embedded_but_leaf_has_oid(conn, tree):
         return live is not None and len(live) == 2
     except Exception:
         return False
+
+
+class _BareCache:
+    """What C05 asks of a connection's cache, for a jar that has none."""
+
+    def __init__(self, jar):
+        self.jar = jar
+
+    def minimize(self):
+        for o in list(self.jar.objs.values()):
+            o._p_deactivate()
+
+    def items(self):
+        return list(self.jar.objs.items())
+
+
+class BareJar:
+    """A data manager WITHOUT a persistent.PickleCache: objects get _p_jar
+    and _p_oid assigned by hand and the jar keeps them alive itself (the
+    configuration of the package's own unit tests, and of any application
+    that manages persistent objects without ZODB).  persistent then takes
+    another path when an object becomes a ghost: with no cache attached the
+    C base class only flips the state - it does not release the object's
+    __slots__ - so whatever an overridden _p_deactivate() / _p_invalidate()
+    does to the contents is all that happens to them.
+
+    Same surface as Connection as far as the eviction monitors use it.
+    commit() stores the state of every changed or new node (oids are handed
+    to all new nodes BEFORE any state is taken, so no node is ever written in
+    the embedded form while it has a record of its own)."""
+
+    impl = None
+    fail_setstate = 0
+    sweep_at_setstate = 0
+    sweep_leaves_only = False
+    fail_read_current = 0
+    incall_sweeps = 0
+    loads_refused = 0
+
+    def __init__(self, impl='c'):
+        self.impl = impl
+        self.store = {}
+        self.objs = {}
+        self.n = 0
+        self.loads = 0
+        self.op_index = 0
+        self.registered = []
+        self.roots = []
+        self.cache = _BareCache(self)
+        self.log_events = False
+
+    # ---- jar protocol ----------------------------------------------------
+    def setstate(self, obj):
+        if self.fail_setstate:
+            self.fail_setstate -= 1
+            if self.fail_setstate == 0:
+                self.loads_refused += 1
+                raise DMBoom('load refused')
+        self.loads += 1
+        up = pickle.Unpickler(io.BytesIO(self.store[obj._p_oid]))
+        up.persistent_load = lambda oid: self.objs[oid]
+        obj.__setstate__(up.load())
+
+    def register(self, obj):
+        if not any(o is obj for o in self.registered):
+            self.registered.append(obj)
+
+    def readCurrent(self, obj):
+        if self.fail_read_current:
+            self.fail_read_current -= 1
+            if self.fail_read_current == 0:
+                raise DMBoom('readCurrent refused')
+
+    def oldstate(self, obj, tid):
+        up = pickle.Unpickler(io.BytesIO(self.store[obj._p_oid]))
+        up.persistent_load = lambda oid: self.objs[oid]
+        return up.load()
+
+    # ---- connection surface ----------------------------------------------
+    def add(self, obj):
+        self.roots.append(obj)
+        return None
+
+    def _children(self, state, out):
+        from persistent import Persistent
+        if isinstance(state, Persistent):
+            out.append(state)
+        elif isinstance(state, (tuple, list)):
+            for x in state:
+                self._children(x, out)
+
+    def commit(self):
+        from persistent import Persistent
+        # phase 1: every node reachable from changed / new nodes gets an oid
+        todo = list(self.roots) + list(self.registered)
+        seen = set()
+        live = []
+        while todo:
+            o = todo.pop()
+            if id(o) in seen:
+                continue
+            seen.add(id(o))
+            if o._p_oid is not None and o._p_changed is None:
+                continue        # a ghost: stored and unchanged
+            if o._p_oid is None:
+                self.n += 1
+                o._p_jar = self
+                o._p_oid = p64(self.n)
+                self.objs[o._p_oid] = o
+                o._p_changed = True
+            live.append(o)
+            kids = []
+            self._children(o.__getstate__(), kids)
+            todo.extend(kids)
+        # phase 2: states of the changed ones
+        for o in live:
+            if o._p_changed:
+                f = io.BytesIO()
+                p = pickle.Pickler(f, 3)
+                p.persistent_id = lambda x: x._p_oid if isinstance(
+                    x, Persistent) else None
+                p.dump(o.__getstate__())
+                self.store[o._p_oid] = f.getvalue()
+                o._p_changed = False
+        self.registered = []
+
+    def cached_objects(self):
+        return list(self.objs.values())
+
+    def sticky_objects(self):
+        out = []
+        for o in self.objs.values():
+            try:
+                if o._p_sticky:
+                    out.append(o)
+            except AttributeError:
+                pass
+        return out
